@@ -400,4 +400,53 @@ theorem pow_witness_bound (s : Shape) (n : Name) (hn : n ∈ elements s)
     simp only [nativeFri, List.flatMap_append, List.mem_append, List.mem_flatMap]
     exact Or.inl (Or.inr ⟨Ev.pow s.queryPowBits Name.queryPow, by simp [powEv, hq], by simp [Ev.names]⟩)
 
+/-! ### the cross-AIR LogUp terminal-sum check (soundness direction, any mix of instances)
+
+The seeded regression C01-a (`verify_batch_circuit` emitting `verify_terminal_sum_circuit` only when
+*every* instance declares lookups) is a circuit script without this check on mixed batches. The
+statements below say what the modelled circuit does: the check is there for every well-formed
+shape, it ranges over the terminal of every instance that declares lookups (whether or not the
+other instances do), and a proof whose present terminals do not pass it does not satisfy the
+circuit. On the real code the same is exercised by prover-side forgeries (`c01_forge_prover.rs`),
+and the driver command `checks` ties the model's check list to the checks seen decisive there. -/
+
+/-- The terminals present in a proof: one per instance that declares lookups, in instance order. -/
+def presentTerminals (s : Shape) : List Name :=
+  (s.insts.zipIdx.filter fun xi => hasLookup xi.1).map fun (_, i) => Name.terminal i
+
+/-- Every instance with lookups contributes its terminal, whatever the other instances declare. -/
+theorem terminal_mem_present (s : Shape) (x : Inst) (i : Nat) (hx : (x, i) ∈ s.insts.zipIdx)
+    (hl : hasLookup x = true) : Name.terminal i ∈ presentTerminals s := by
+  unfold presentTerminals
+  exact List.mem_map.mpr ⟨(x, i), List.mem_filter.mpr ⟨hx, hl⟩, rfl⟩
+
+/-- The circuit (when it can be built) performs the terminal-sum check over all present terminals. -/
+theorem terminal_sum_checked (s : Shape) (h : WFBatch s) :
+    ∃ sc, circuitBatch s = .ok sc ∧ Check.terminalSum (presentTerminals s) ∈ sc.checks := by
+  refine ⟨nativeBatch s, batch_scripts_equal_partial s h, ?_⟩
+  simp [nativeBatch, presentTerminals]
+
+/-- The out-of-domain check of every instance is performed by the circuit. -/
+theorem ood_checked (s : Shape) (h : WFBatch s) (x : Inst) (i : Nat) (hx : (x, i) ∈ s.insts.zipIdx) :
+    ∃ sc, circuitBatch s = .ok sc ∧ Check.ood i (oodOperands s.D i x) ∈ sc.checks := by
+  refine ⟨nativeBatch s, batch_scripts_equal_partial s h, ?_⟩
+  simp only [nativeBatch, List.mem_append, List.mem_map]
+  exact Or.inl (Or.inr ⟨(x, i), hx, rfl⟩)
+
+/-- Soundness of the composition for a failing check: if some check of the script does not hold for
+the proof data (under the circuit's own semantics), the circuit is not satisfied. -/
+theorem failing_check_rejected {V : Type} (sem : Sem V) (sc : Script) (env : Name → V) (c : Check)
+    (hc : c ∈ sc.checks) (hbad : ¬ sem.holds c env (sem.chal sc.events env)) : ¬ accepts sem sc env :=
+  fun ha => hbad (ha.2 c hc)
+
+/-- An unbalanced bus (the present terminals do not pass the terminal-sum check) is rejected by the
+circuit for every well-formed batch — in particular for batches that mix instances with and without
+lookups. -/
+theorem unbalanced_bus_rejected {V : Type} (sem : Sem V) (s : Shape) (h : WFBatch s) (env : Name → V)
+    (hbad : ¬ sem.holds (Check.terminalSum (presentTerminals s)) env (sem.chal (nativeBatch s).events env)) :
+    ∃ sc, circuitBatch s = .ok sc ∧ ¬ accepts sem sc env := by
+  refine ⟨nativeBatch s, batch_scripts_equal_partial s h, ?_⟩
+  apply failing_check_rejected sem _ env _ _ hbad
+  simp [nativeBatch, presentTerminals]
+
 end P3R.C01
